@@ -625,6 +625,99 @@ class BannerVersion(Harness):
         return label
 
 
+class ClientStall(Harness):
+    """client audit (-c): real audit() -> real listen_and_accept() on a listening-socket model in which (as in CPython) the accepted connection starts WITHOUT a
+    timeout; the connecting client sends a prefix of a well-formed handshake (plus one arbitrary byte) and then stalls with the connection open.  The audit
+    ends through a documented status - it never sits in a read that nothing will end."""
+    prop, ob = PROP, 'O8'
+    width = 64
+    STAGES = ('nothing', 'mid-banner', 'after-banner', 'mid-kexinit', 'after-kexinit')
+
+    def __init__(self, stage, v6=True):
+        self.stage, self.v6 = stage, v6
+        self.name = 'client-stall-%s%s' % (stage, '' if v6 else '-v4only')
+
+    def params(self):
+        return {'stage': self.stage, 'v6': self.v6}
+
+    def inputs(self):
+        x = zx.fresh_bytes('x', 1)
+        if zx.active():
+            zx.cur().assume(s_or(x[0] == 0, x[0] == 65, x[0] == 10))     # echoed in error texts: three representatives
+        return {'x': x}
+
+    def run(self, M, inp):
+        if zx.active():
+            zx.cur().stdout = []
+        banner = b'SSH-2.0-OpenSSH_8.0\r\n'
+        kp = kexinit_pkt(['curve25519-sha256'], ['ssh-ed25519'])
+        chunks = {'nothing': [], 'mid-banner': [banner[:9] + inp['x']], 'after-banner': [banner, inp['x']], 'mid-kexinit': [banner, kp[:30] + inp['x']],
+                  'after-kexinit': [banner, kp]}[self.stage]
+        client = AE.Conn(chunks, 'timeout')
+        net = AE.ListenNet(client, self.v6)
+        import io, contextlib
+        with contextlib.redirect_stderr(io.StringIO()):
+            r = AE.run_audit(M, [], net=net, client_audit=True, port=2222)
+        return {'ret': r['ret'], 'alg': has_alg_lines(r['lines']), 'timeout_on_accepted': client.timeout is not None}
+
+    def check(self, inp, obs):
+        r = obs['ret']
+        hang = isinstance(r, Exc) and r.type == 'Hang'
+        yield 'terminates-when-the-client-stalls', not hang
+        if hang:
+            return
+        st = status_of(r)
+        yield 'documented-status', st is not None
+        if self.stage == 'after-kexinit' and st is not None:
+            yield 'report-complete-for-a-well-formed-client', obs['alg'] and st in (0, 2, 3)
+        yield 'accepted-connection-has-the-configured-timeout', obs['timeout_on_accepted']
+
+
+class Ssh1Masks(Harness):
+    """SSH-1: a well-formed public-key message whose cipher / authentication bit masks carry ARBITRARY bits above the ones the tool has names for (vendor
+    extension bits, a flipped bit): the real output() still ends with a complete report and a documented status - in text and in JSON."""
+    prop, ob = PROP, 'O7'
+    width = 64
+
+    def __init__(self, which, json):
+        self.which, self.json = which, json
+        self.name = 'ssh1-masks-%s-%s' % (which, 'json' if json else 'text')
+
+    def params(self):
+        return {'which': self.which, 'json': self.json}
+
+    def inputs(self):
+        return {'hi': zx.fresh_int('hi', 1, (1 << 25) - 1)}
+
+    def run(self, M, inp):
+        from props import outlib as OL
+        hi = inp['hi']
+        cmask, amask = 0x48, 0x0C
+        if self.which in ('ciphers', 'both'):
+            cmask = cmask | (hi << 7)
+        if self.which in ('auths', 'both'):
+            amask = amask | (hi << 7)
+        pkm = M.ssh1_publickeymessage.SSH1_PublicKeyMessage(b'\x00' * 8, (768, 3, 5), (1024, 3, 7), 2, cmask, amask)
+        r = OL.run_output(M, None, sw='OpenSSH_3.4p1', pkm=pkm, protocol=(1, 5), json=self.json)
+        if isinstance(r['ret'], Exc):
+            return {'ret': r['ret']}
+        if self.json:
+            return {'ret': r['ret'], 'complete': isinstance(r['doc'], dict)}
+        return {'ret': r['ret'], 'complete': any(OL._starts(ln, '(enc) 3des') for ln in r['lines']) and any(OL._starts(ln, '(aut) ') for ln in r['lines'])}
+
+    def check(self, inp, obs):
+        st = status_of(obs['ret'])
+        yield 'documented-status', st is not None
+        if st is not None:
+            yield 'report-complete-whatever-the-unknown-mask-bits', obs['complete'] and st in (0, 2, 3)
+
+    def classify(self, inp, obs, label):
+        r = obs['ret']
+        if isinstance(r, Exc):
+            return 'ssh1-masks(%s):%s' % (self.which, r.type)
+        return label
+
+
 class NameControlChars(Harness):
     """a peer cannot rewrite the auditor's terminal through an algorithm NAME: a name with one arbitrary control character (ESC, CR, BEL, BS, DEL, ...) in any
     category is rendered by the real output() without that character reaching the text report (the per-algorithm line and the unknown-algorithms notice)."""
@@ -810,6 +903,12 @@ def tasks(tier):
         T.append(KexinitTail(n))
     for cat in ('kex', 'key', 'enc', 'mac'):
         T.append(NameControlChars(cat))
+    for which in ('ciphers', 'auths', 'both'):
+        for json in (False, True):
+            T.append(Ssh1Masks(which, json))
+    for stage in ClientStall.STAGES:
+        T.append(ClientStall(stage))
+    T.append(ClientStall('after-banner', False))
     if not q:
         for k in (1, 5):
             T.append(PaddingCut(k, 12))
@@ -838,6 +937,10 @@ def harness_by_name(name, params):
         return AuditFirstConn(params['n'], params['sshv'], params['end'], params['framed'], params.get('dom', 'any'))
     if k.startswith('banner-version'):
         return BannerVersion(params['product'], params['n'])
+    if k.startswith('client-stall'):
+        return ClientStall(params['stage'], params.get('v6', True))
+    if k.startswith('ssh1-masks'):
+        return Ssh1Masks(params['which'], params['json'])
     if k.startswith('name-control-chars'):
         return NameControlChars(params['cat'])
     if k.startswith('kexinit-tail'):
